@@ -74,10 +74,10 @@ class StmtCompiler(CompilerBase, AstVisitor[None]):
     def _assign_place(self, lhs: PlaceNode, port: Wire) -> None:
         if subscript := contains_subscript(lhs.place):
             assert subscript.setitem_call is not None
-            if subscript.item not in self.dfg:
-                self.dfg[subscript.item] = self.expr_compiler.compile(
-                    subscript.item_expr, self.dfg
-                )
+            # Evaluate the index expressions of all subscripts in the place from left
+            # to right (the parent place is only visited later for the write-back)
+            self.expr_compiler.dfg = self.dfg
+            self.expr_compiler.compile_subscript_items(lhs.place)
             # If the subscript is nested inside the place, e.g. `xs[i].y = ...`, we
             # first need to lookup `tmp = xs[i]`, assign `tmp.y = ...`, and then finally
             # set `xs[i] = tmp`
